@@ -11,7 +11,7 @@ QUOTED_ATOMS = ['hello world', 'True', 'None', 'Foo', "it's", 'a"b', '#', 'x = 1
 VAR_NAMES = ['X', 'Y', 'Z', 'Xs', 'XS', 'True', 'False', 'None', 'ATOM_NIL', 'Yield', 'Crop_yield', 'DoBreak', 'L1', 'Arg1', 'X1',
              'V_X', '_x', '_X1', '__builtins__', '__debug__', '_ab', '_Ab', '_aB', 'Query', 'A', 'B', 'Lambda', 'Def', 'Return']
 PRED_NAMES = ['p', 'q', 'r', 'foo', 'member', 'yield', 'high_yield', 'query', 'atom', 'call_n', 'p_1', 'class', 'def', 'x1', 'l1', 'arg1',
-              'doBreak', 'once', 'True', 'Foo', '五輪書', 'é']
+              'doBreak', 'once', 'True', 'Foo', '五輪書', 'é', '__init', '__x', '_', '__']
 BAD_PRED_NAMES = ['hello world', 'a.b', '1a', '', 'x(a):\n  pass\nimport_me = 1\ndef y', "it's", 'a-b', 'ﬁ']
 NUMERALS = ['0', '1', '7', '42', '007', '00', '010', '123456789012345678901234567890']
 
